@@ -9,6 +9,7 @@ import (
 	"fmt"
 	"reflect"
 	"sort"
+	"strings"
 	"time"
 	"unsafe"
 )
@@ -204,7 +205,7 @@ func Build(s Schema, t Type, v Val, rv reflect.Value, nilEmpty bool) {
 				panic(fmt.Sprintf("go type %s does not match struct %s", rv.Type(), d.Name))
 			}
 			for i := range d.Fields {
-				Build(s, d.Fields[i].T, fs[i], rv.Field(i), nilEmpty)
+				Build(s, d.Fields[i].T, fs[i], goField(rv, d.Fields[i].Name), nilEmpty)
 			}
 		case "message":
 			if rv.Kind() != reflect.Struct || rv.NumField() != len(d.Fields) {
@@ -213,11 +214,10 @@ func Build(s Schema, t Type, v Val, rv reflect.Value, nilEmpty bool) {
 			order := msgOrder(d)
 			for _, pr := range seq(v) {
 				kv := seq(pr)
-				pos, ok := order[num(kv[0])]
-				if !ok {
+				if _, ok := order[num(kv[0])]; !ok {
 					panic(fmt.Sprintf("message %s has no index %d", d.Name, num(kv[0])))
 				}
-				f := settable(rv.Field(pos))
+				f := settable(goField(rv, fieldByIdx(d, num(kv[0])).Name))
 				p := reflect.New(f.Type().Elem())
 				Build(s, fieldByIdx(d, num(kv[0])).T, kv[1], p.Elem(), nilEmpty)
 				f.Set(p)
@@ -227,13 +227,30 @@ func Build(s Schema, t Type, v Val, rv reflect.Value, nilEmpty bool) {
 				panic(fmt.Sprintf("go type %s does not match union %s", rv.Type(), d.Name))
 			}
 			uv := seq(v)
-			pos, br := branchPos(d, num(uv[0]))
-			f := settable(rv.Field(pos))
+			_, br := branchPos(d, num(uv[0]))
+			f := settable(goField(rv, br.N))
 			p := reflect.New(f.Type().Elem())
 			Build(s, Type{K: "r", N: br.N}, uv[1], p.Elem(), nilEmpty)
 			f.Set(p)
 		}
 	}
+}
+
+// goField finds the Go struct field generated for a schema identifier: the generator changes the case of the
+// first letter only (upper case when exported; lower case for private definitions and readonly structs).
+func goField(rv reflect.Value, name string) reflect.Value {
+	if name == "" {
+		panic("empty field name")
+	}
+	up := strings.ToUpper(name[:1]) + name[1:]
+	lo := strings.ToLower(name[:1]) + name[1:]
+	t := rv.Type()
+	for i := 0; i < t.NumField(); i++ {
+		if n := t.Field(i).Name; n == up || n == lo {
+			return rv.Field(i)
+		}
+	}
+	panic(fmt.Sprintf("go type %s has no field for %q", rv.Type(), name))
 }
 
 // msgOrder maps a field index to its position in the generated Go struct
@@ -418,7 +435,7 @@ func Lift(s Schema, t Type, rv reflect.Value) Val {
 		case "struct":
 			out := make([]interface{}, len(d.Fields))
 			for i := range d.Fields {
-				out[i] = Lift(s, d.Fields[i].T, rv.Field(i))
+				out[i] = Lift(s, d.Fields[i].T, goField(rv, d.Fields[i].Name))
 			}
 			return out
 		case "message":
@@ -428,8 +445,8 @@ func Lift(s Schema, t Type, rv reflect.Value) Val {
 				idx[i] = f.Idx
 			}
 			sort.Ints(idx)
-			for pos, i := range idx {
-				f := readable(rv.Field(pos))
+			for _, i := range idx {
+				f := readable(goField(rv, fieldByIdx(d, i).Name))
 				if f.IsNil() {
 					continue
 				}
@@ -443,12 +460,12 @@ func Lift(s Schema, t Type, rv reflect.Value) Val {
 			}
 			sort.Ints(ids)
 			members := []interface{}{}
-			for pos, i := range ids {
-				f := readable(rv.Field(pos))
+			for _, i := range ids {
+				_, br := branchPos(d, i)
+				f := readable(goField(rv, br.N))
 				if f.IsNil() {
 					continue
 				}
-				_, br := branchPos(d, i)
 				members = append(members, []interface{}{i, Lift(s, Type{K: "r", N: br.N}, f.Elem())})
 			}
 			if len(members) == 1 {
